@@ -355,9 +355,9 @@ func detectFieldGrouping(c *Ctx, p *packages.Package, rel string, ts *ast.TypeSp
 	var cur []flat
 	for i := 0; i < tst.NumFields(); i++ {
 		f := tst.Field(i)
-		if nt, ok := f.Type().(*types.Named); ok && nt.Obj().Pkg() == p.Types && !f.Embedded() {
+		if nt, ok := f.Type().(*types.Named); ok && nt.Obj().Pkg() == p.Types {
 			if inner, ok := nt.Underlying().(*types.Struct); ok {
-				if _, reviewed := known[rel+"|"+nt.Obj().Name()]; !reviewed && nt.NumMethods() == 0 && typeUsedOnlyBy(p, nt.Obj(), f) {
+				if _, reviewed := known[rel+"|"+nt.Obj().Name()]; !reviewed && typeUsedOnlyBy(p, nt.Obj(), f) {
 					for j := 0; j < inner.NumFields(); j++ {
 						cur = append(cur, flat{inner.Field(j), f, typeText(inner.Field(j).Type())})
 					}
@@ -432,19 +432,34 @@ func detectFieldGrouping(c *Ctx, p *packages.Package, rel string, ts *ast.TypeSp
 	return notes
 }
 
-// typeUsedOnlyBy: the named type is mentioned nowhere in its package except as the type of field f.
+// typeUsedOnlyBy: no other struct field and no package-level variable of the package has the named type (by value or by
+// pointer): every value of the type that lives beyond a function call is the field f of its owner.
 func typeUsedOnlyBy(p *packages.Package, tn *types.TypeName, f *types.Var) bool {
-	n := 0
-	for id, obj := range p.TypesInfo.Uses {
-		if obj == tn {
-			n++
-			if id.Pos() < f.Pos() || id.Pos() > f.Pos()+token.Pos(len(f.Name())+200) {
-				// a use far from the field declaration
+	is := func(t types.Type) bool {
+		if pt, ok := t.(*types.Pointer); ok {
+			t = pt.Elem()
+		}
+		n, ok := t.(*types.Named)
+		return ok && n.Obj() == tn
+	}
+	sc := p.Types.Scope()
+	for _, name := range sc.Names() {
+		switch o := sc.Lookup(name).(type) {
+		case *types.Var:
+			if is(o.Type()) {
 				return false
+			}
+		case *types.TypeName:
+			if st, ok := o.Type().Underlying().(*types.Struct); ok {
+				for i := 0; i < st.NumFields(); i++ {
+					if st.Field(i) != f && is(st.Field(i).Type()) {
+						return false
+					}
+				}
 			}
 		}
 	}
-	return n == 1
+	return true
 }
 
 // ---- package-level identifiers (variables, constants, types): same declaration text under a new name
@@ -851,6 +866,9 @@ func inlineNewHelpers(c *Ctx, known map[string]bool, seq *int) (out map[string][
 				}
 				callees[obj] = &inlCallee{fd: fd, obj: obj, file: f}
 			}
+		}
+		if os.Getenv("FPCHECK_DEBUG_NOTES") != "" {
+			fmt.Fprintln(os.Stderr, "INLINE:", p.PkgPath, "callees:", len(callees))
 		}
 		if len(callees) == 0 {
 			continue
@@ -1385,12 +1403,26 @@ func (in *inliner) expand(call *ast.CallExpr) (pre string, repl string, ok bool)
 			return "", "", false
 		}
 		sel := in.p.TypesInfo.Selections[se]
-		if sel == nil || sel.Kind() != types.MethodVal || len(sel.Index()) != 1 {
+		if sel == nil || sel.Kind() != types.MethodVal || len(sel.Index()) < 1 {
 			return "", "", false
 		}
 		rx := in.text(se.X)
 		_, wantPtr := sig.Recv().Type().(*types.Pointer)
-		_, havePtr := in.p.TypesInfo.TypeOf(se.X).Underlying().(*types.Pointer)
+		curT := in.p.TypesInfo.TypeOf(se.X)
+		// a method promoted through embedded fields: spell the path out
+		for _, fi := range sel.Index()[:len(sel.Index())-1] {
+			t := curT
+			if pt, ok := t.Underlying().(*types.Pointer); ok {
+				t = pt.Elem()
+			}
+			st, ok := t.Underlying().(*types.Struct)
+			if !ok || fi >= st.NumFields() {
+				return "", "", false
+			}
+			rx += "." + st.Field(fi).Name()
+			curT = st.Field(fi).Type()
+		}
+		_, havePtr := curT.Underlying().(*types.Pointer)
 		switch {
 		case wantPtr && !havePtr:
 			rx = "&(" + rx + ")"
